@@ -210,6 +210,30 @@ Theorem C03_check_case_spec : forall g runs,
 Proof. exact check_case_spec. Qed.
 Print Assumptions C03_check_case_spec.
 
+(* holds_b is sound: an observed verdict that passes clause 1 is Accept exactly when every
+   configured rule holds (structural conditions as Props), and is a boolean unless raising was
+   requested; recorded rule arguments that pass clause 2 are the internal graph (native rules)
+   or a restored domain graph with the structure of the verified graph (domain rules) *)
+Theorem C03_holds_verdict_sound : forall ad rf rules g ob, wf g ->
+  nth 0 (holds_l ad rf rules g ob) false = true ->
+  existsb (c_raises_other (mk_roracle g)) rules = false ->
+  (ob_verdict ob = Accept <-> forall c, In c rules -> crule_holds g c) /\
+  (ob_verdict ob = Accept \/ ob_verdict ob = Reject \/ (rf = true /\ ob_verdict ob = RaiseVerification)).
+Proof. exact holds_verdict_sound. Qed.
+Print Assumptions C03_holds_verdict_sound.
+
+Theorem C03_holds_args_sound : forall ad rf rules g ob, wf g ->
+  nth 1 (holds_l ad rf rules g ob) false = true ->
+  forall i a, In (i, a) (ob_calls ob) ->
+  exists native u, nth_error rules i = Some (CU native u) /\
+                   if native then arg_is_internal g a else arg_is_restored ad g a.
+Proof. exact holds_args_sound. Qed.
+Print Assumptions C03_holds_args_sound.
+
+Theorem C03_restore_of_is_restored : forall ad g, wf g -> arg_is_restored ad g (restore_of ad g).
+Proof. exact restore_of_is_restored. Qed.
+Print Assumptions C03_restore_of_is_restored.
+
 (* ---------------------------------------------------------------------------------------- *)
 (* non-vacuity: the hypotheses are satisfiable by non-trivial states, both verdicts occur     *)
 (* ---------------------------------------------------------------------------------------- *)
